@@ -1,5 +1,5 @@
 import LyModel.Sib.RbInvLemmas
-import LyModel.Sib.RbReach
+import LyModel.Sib.RbRefine
 /-!
 # C04, stage 2 — the red-black tree behind a system-ordered (leaf-)list (`tree_data_sorted.c`), insertion and removal
 
@@ -22,14 +22,12 @@ theorem rb_inorder_insert {α : Type} (gt : α → α → Bool)
     inorder (Rb.insert gt x t) = sins (fun a b => !gt a b) x (inorder t) :=
   inorder_insert gt trans x t hs
 
-/-- the comparison the sibling-list model orders system-ordered instances by (`Key.le`, i.e. the type plugin's `sort`
-    callback), as `rb_compare(d, x) > 0` -/
-def keyGt (d x : Node) : Bool := !(d.key.le x.key)
+/-! `keyGt d x = !(d.key.le x.key)` (Sib/RbReach.lean): the comparison the sibling-list model orders system-ordered
+   instances by (`Key.le`, i.e. the type plugin's `sort` callback), as `rb_compare(d, x) > 0`. -/
 
 /-- non-vacuity (audit): hypothesis `trans` holds for the model's REAL key order (numeric and `strcmp` keys) -/
-theorem keyGt_trans (a b c : Node) : keyGt a b = false → keyGt b c = false → keyGt a c = false := by
-  simp only [keyGt, Bool.not_eq_false']
-  exact Key.le_trans a.key b.key c.key
+theorem keyGt_trans (a b c : Node) : keyGt a b = false → keyGt b c = false → keyGt a c = false :=
+  Sib.keyGt_trans a b c
 
 /-- a tree of seven string-keyed list instances (with one equal key), built by the insertion itself -/
 def auT : T Node :=
@@ -152,9 +150,7 @@ theorem rb_reachable_ins_del {α : Type} (gt : α → α → Bool)
       have := ih (Rb.remove i t) (remove_isRB i t h) hs'
       simpa only [rbStep, seqStep, hi] using this
 
-theorem keyGt_total (a b : Node) : keyGt a b = false ∨ keyGt b a = false := by
-  simp only [keyGt, Bool.not_eq_false']
-  exact Key.le_total a.key b.key
+theorem keyGt_total (a b : Node) : keyGt a b = false ∨ keyGt b a = false := Sib.keyGt_total a b
 
 /-- non-vacuity (audit): from the empty tree with the model's real key order; 9 edits with removals at the front (the
     leader), in the middle and of an equal key -/
@@ -191,5 +187,33 @@ example : size ((auOps.take 1).foldl (lydsStep keyGt) (Lyds.empty, [])).1.tree =
     (inorder (auOps.foldl (lydsStep keyGt) (Lyds.empty, [])).1.tree).map (·.id) = [7, 5, 3, 8, 6] ∧
     LydsOk (auOps.foldl (lydsStep keyGt) (Lyds.empty, [])).1 (auOps.foldl (lydsStep keyGt) (Lyds.empty, [])).2 :=
   ⟨by decide, by decide, (lyds_reachable keyGt keyGt_total keyGt_trans auOps).1⟩
+
+/-! ## the sibling-list invariant with the CONCRETE sorting tree (refinement of `C04.inv_step_unlink` / `C04.inv_reachable`)
+
+`Sib.unlinkNode` and `Sib.insertNode` abstract the sorting tree of a system-ordered (leaf-)list to its in-order sequence,
+the block of instances in the sibling list.  `CSibs` (Sib/RbRefine.lean) carries the tree along: `sibs` = the sibling list
+with its hash table as in `C04`, `lyds` = the `Lyds` record of the system-ordered (leaf-)list `x`; `cstep` edits `sibs` by
+`Sib.step` and `lyds` by `Lyds.insert keyGt (leader) n` when an instance of `x` is inserted and by
+`Lyds.unlink (position of the node inside the block)` when one is unlinked; `block x l` = the instances of `x` in `l`. -/
+
+/-- `lyd_unlink` at the red-black level: if the tree lists the instances of `x` (`LydsOk`), then after unlinking ANY node —
+    an instance of `x` (the leader included: the record then belongs to the next instance), or any other node — the tree
+    that `rb_remove_node` leaves lists exactly the instances of `x` in the new sibling list, and is a valid red-black tree -/
+theorem unlink_refines (S : Schema) (cx : Cx) (x : SRef) (hx : (S x).sorted = true) (c : CSibs) (id : Nat)
+    (h : Inv S cx c.sibs) (href : LydsOk c.lyds (block x c.sibs.nodes)) :
+    (cstep S cx true x c (.unlink id)).sibs = unlinkNode S cx c.sibs id ∧
+    LydsOk (cstep S cx true x c (.unlink id)).lyds (block x (unlinkNode S cx c.sibs id).nodes) :=
+  ⟨rfl, cstep_ok S cx true x hx c (.unlink id) h trivial rfl href⟩
+
+/-- every history of `lyd_insert_node` / `lyd_unlink` / `lyd_insert_before` / `lyd_insert_after` from a canonical list whose
+    tree lists the instances: the sibling component is the run of `C04.inv_reachable`, it is canonical, and the concrete tree
+    still lists exactly the instances of `x`, is a valid red-black tree, and exists iff … (`LydsOk`) -/
+theorem inv_reachable_rb (S : Schema) (cx : Cx) (fixed : Bool) (x : SRef) (hx : (S x).sorted = true) (ops : List Op) (c : CSibs)
+    (h : Inv S cx c.sibs) (href : LydsOk c.lyds (block x c.sibs.nodes))
+    (hok : HistOk S cx fixed c.sibs ops) (hc : ∀ o ∈ ops, isChange o = false) :
+    (crun S cx fixed x c ops).sibs = runOps S cx fixed c.sibs ops ∧
+    Inv S cx (crun S cx fixed x c ops).sibs ∧
+    LydsOk (crun S cx fixed x c ops).lyds (block x (crun S cx fixed x c ops).sibs.nodes) :=
+  ⟨crun_sibs S cx fixed x ops c, crun_ok S cx fixed x hx ops c h hok hc href⟩
 
 end LyModel.Props.C04Rb
